@@ -10,6 +10,8 @@
  *   top <hex name> missing
  *   fsg <hex top> raw|closed null
  *   fsg <hex top> raw|closed <nstate> <start> <final> <narcs> <from>:<to>:<logp>:<hex word|-> ...
+ *   why <hex top> raw|closed <U> <R> <W>   after a refused build: which E_ERROR messages jsgf.c printed during it
+ *                                          (U "Undefined rule in RHS", R "Only right-recursion is permitted", W "Weight ...")
  *   stack <hex top> <depth of jsgf->rulestack after the build>
  *   read null | read <hex fsg name> <nstate> <start> <final> <narcs> arcs...     (jsgf_read_string, whole pipeline)
  *   end <id>
@@ -80,13 +82,30 @@ static void dump_fsg_body(fsg_model_t *fsg)
     fflush(stdout);
 }
 
+/* the refusal messages of jsgf.c seen since the last reset (the library's own err callback interface) */
+static int why_undef, why_rec, why_weight;
+static void err_cb(void *user_data, err_lvl_t lvl, const char *msg)
+{
+    (void)user_data;
+    if (lvl < ERR_ERROR || msg == NULL) return;
+    if (strstr(msg, "Undefined rule in RHS")) why_undef = 1;
+    if (strstr(msg, "Only right-recursion is permitted")) why_rec = 1;
+    if (strstr(msg, "Weight ")) why_weight = 1;
+    if (getenv("H_C05_LOG") != NULL) fputs(msg, stderr);
+}
+
 static void build(jsgf_t *jsgf, jsgf_rule_t *rule, const char *tophex, logmath_t *lm, int closed)
 {
     fsg_model_t *fsg;
     printf("fsg %s %s ", tophex, closed ? "closed" : "raw");
     fflush(stdout);
+    why_undef = why_rec = why_weight = 0;
     fsg = closed ? jsgf_build_fsg(jsgf, rule, lm, 1.0f) : jsgf_build_fsg_raw(jsgf, rule, lm, 1.0f);
-    if (fsg == NULL) { printf("null\n"); fflush(stdout); }
+    if (fsg == NULL) {
+        printf("null\n");
+        printf("why %s %s %d %d %d\n", tophex, closed ? "closed" : "raw", why_undef, why_rec, why_weight);
+        fflush(stdout);
+    }
     else { dump_fsg_body(fsg); fsg_model_free(fsg); }
     printf("stack %s %d\n", tophex, (int)glist_count(jsgf->rulestack));
     fflush(stdout);
@@ -97,7 +116,8 @@ int main(void)
     size_t cap = 1 << 22;
     char *line = (char *)malloc(cap), *w[8];
     logmath_t *lm;
-    if (getenv("H_C05_LOG") == NULL) err_set_loglevel(ERR_FATAL);
+    err_set_loglevel(ERR_ERROR);
+    err_set_callback(err_cb, NULL);
     lm = logmath_init(1.0001, 0, 0);
     while (fgets(line, (int)cap, stdin)) {
         int n = vf_words(line, w, 8);
@@ -105,6 +125,35 @@ int main(void)
         char *text;
         jsgf_t *jsgf;
         fsg_model_t *fsg;
+        if (n == 4 && !strcmp(w[0], "bigfile")) {
+            /* bigfile <id> <path of a JSGF text> <hex top rule name>: a grammar too big for a hex line (close-c05c18,
+             * big-grammar family).  Prints  bigfsg <id> raw|closed null | <nstate> <start> <final> <narcs> arcs...  */
+            FILE *fh = fopen(w[2], "rb");
+            long sz; char *txt; void *val; char *name; size_t l2; int closed;
+            if (!fh) { printf("bigfsg %s nofile\n", w[1]); fflush(stdout); continue; }
+            fseek(fh, 0, SEEK_END); sz = ftell(fh); fseek(fh, 0, SEEK_SET);
+            txt = (char *)malloc((size_t)sz + 1);
+            if (fread(txt, 1, (size_t)sz, fh) != (size_t)sz) { printf("bigfsg %s nofile\n", w[1]); fflush(stdout); fclose(fh); free(txt); continue; }
+            txt[sz] = 0; fclose(fh);
+            jsgf = jsgf_parse_string(txt, NULL);
+            name = (char *)vf_parse_hex(w[3], &l2);
+            if (jsgf == NULL || hash_table_lookup(jsgf->rules, name, &val) < 0) {
+                printf("bigfsg %s %s\n", w[1], jsgf ? "notop" : "parsefail"); fflush(stdout);
+            } else {
+                for (closed = 0; closed < 2; closed++) {
+                    fsg_model_t *f2 = closed ? jsgf_build_fsg(jsgf, (jsgf_rule_t *)val, lm, 1.0f)
+                                             : jsgf_build_fsg_raw(jsgf, (jsgf_rule_t *)val, lm, 1.0f);
+                    printf("bigfsg %s %s ", w[1], closed ? "closed" : "raw");
+                    if (f2 == NULL) printf("null\n");
+                    else { dump_fsg_body(f2); fsg_model_free(f2); }
+                    fflush(stdout);
+                }
+            }
+            if (jsgf) jsgf_grammar_free(jsgf);
+            free(name); free(txt);
+            printf("end %s\n", w[1]); fflush(stdout);
+            continue;
+        }
         if (n != 4 || strcmp(w[0], "case")) continue;
         printf("case %s\n", w[1]);
         fflush(stdout);
